@@ -404,6 +404,12 @@ Proof. intros H Q s HI HQ. apply wp_bind, wp_mark. apply H; assumption. Qed.
 Lemma skc_modify f : (forall s, same_skel s (f s)) -> skstep (modify f).
 Proof. intros H Q s HI HQ. apply wp_modify_skel; auto. Qed.
 
+Lemma skc_check_closer seq : skstep (check_flow_closer seq).
+Proof.
+  intros Q s HI HQ. unfold check_flow_closer. apply wp_bind, wp_get.
+  destruct (sc_ifms s) as [|st r]; [apply wp_ret, HQ; [exact HI|apply fr_refl]|]. cbv zeta.
+  destruct (Bool.eqb _ _); [apply wp_ret, HQ; [exact HI|apply fr_refl]|apply wp_fail].
+Qed.
 Definition skc_push_tok t : skstep (push_tok t) := wp_push_tok t.
 Definition skc_allow : skstep allow_simple_key := wp_allow.
 Definition skc_disallow : skstep disallow_simple_key := wp_disallow.
@@ -450,6 +456,7 @@ Ltac skc_one :=
   | |- skstep remove_simple_key => apply skc_remove
   | |- skstep stale_simple_keys => apply skc_stale
   | |- skstep (end_implicit_mapping _) => apply skc_eim
+  | |- skstep (check_flow_closer _) => apply skc_check_closer
   | |- skstep increase_flow_level => apply skc_incr
   | |- skstep decrease_flow_level => apply skc_decr
   | |- skstep (roll_indent _ None _ _) => apply skc_roll_indent_none
@@ -554,7 +561,7 @@ Qed.
 
 Lemma wp_fetch_flow_collection_end F seq s : SI s -> wp (fetch_flow_collection_end B F seq) post_si s.
 Proof.
-  intros HI. unfold fetch_flow_collection_end. sks. sks. sks. sks. sks. wmark.
+  intros HI. unfold fetch_flow_collection_end. sks. sks. sks. sks. sks. sks. wmark.
   wb. apply (wp_skip_non_blank cap cap_ge). kstep.
   wb. eapply use_spec; [apply H_ws|]. kstepv.
   sks. wmark. fin.
